@@ -55,6 +55,8 @@ type c18Case struct {
 	Form    int      `json:"form,omitempty"` // 0 string 1 octets 2 stream 3 file
 	// config family: the history of settings of *bag-time-format* / *bag-time-wrap* before the parse
 	History []c18CfgStep `json:"history,omitempty"`
+	// recover family: a text that does not parse, given to Entry; then Docs are parsed
+	Bad    string    `json:"bad,omitempty"`
 	Sweep  bool      `json:"sweep"`
 	Cell   string    `json:"cell,omitempty"`
 }
@@ -366,6 +368,44 @@ func parseGV(ts []string) (*gv, []string, bool) {
 }
 
 // encGo renders a Go value that came back from Simplify as G tokens.
+// encBagTree writes a bag's Go tree in the model's J tokens (an integer held as json.Number is an
+// integer; a time is the token of its RFC 3339 text).
+func encBagTree(v any) []string {
+	switch t := v.(type) {
+	case nil:
+		return []string{"n"}
+	case bool:
+		if t {
+			return []string{"T"}
+		}
+		return []string{"F"}
+	case int64:
+		return []string{"i" + strconv.FormatInt(t, 10)}
+	case json.Number:
+		return []string{"i" + string(t)}
+	case float64:
+		return []string{"d" + fmtFloat(t)}
+	case string:
+		return []string{"s" + lib.Hex(t)}
+	case time.Time:
+		return []string{"m" + lib.Hex(t.UTC().Format(time.RFC3339Nano))}
+	case []any:
+		out := []string{"["}
+		for _, c := range t {
+			out = append(out, encBagTree(c)...)
+		}
+		return append(out, "]")
+	case map[string]any:
+		out := []string{"{"}
+		for _, k := range sortedKeys(t) {
+			out = append(out, "k"+lib.Hex(k))
+			out = append(out, encBagTree(t[k])...)
+		}
+		return append(out, "}")
+	}
+	return []string{fmt.Sprintf("?%T", v)}
+}
+
 func encGo(v any) []string {
 	switch t := v.(type) {
 	case nil:
